@@ -349,3 +349,90 @@ def compare_images(real, model, tol_rel, what="image"):
         i = np.unravel_index(int(np.argmax(d)), d.shape)
         return f"{what}: max |Δ| = {d[i]:.3e} at {tuple(int(x) for x in i)} (peak {peak:.3e}, tol {tol_rel:g}·peak): real {real[i]!r} model {model[i]!r}"
     return None
+
+
+# ----------------------------------------------------------------------------
+# the tie itself: x64 pass (pins the formula) + float32 pass (library default)
+# ----------------------------------------------------------------------------
+
+def chunked(xs, n):
+    """n contiguous chunks (scenes of one renderer configuration stay in one child: renderer cache)"""
+    n = max(1, min(n, len(xs)))
+    k, m = divmod(len(xs), n)
+    out, i = [], 0
+    for j in range(n):
+        step = k + (1 if j < m else 0)
+        out.append(xs[i:i + step])
+        i += step
+    return out
+
+
+def unchunk(chunks, total):
+    out = [v for ch in chunks for v in ch]
+    assert len(out) == total
+    return out
+
+
+def run_real(scenes, x64, workers=4, jit=False, want_triple=False):
+    from .common import run_children
+    # keep scenes with the same renderer configuration in the same child (renderer cache)
+    chunks = chunked(scenes, workers)
+    res = run_children("render_common", "real_scenes", [dict(scenes=ch, jit=jit, want_triple=want_triple) for ch in chunks],
+                       x64=x64, workers=workers)
+    return unchunk(res, len(scenes))
+
+
+def render_tie(ctx, scenes, tol64=1e-9, tol32=2e-5, workers=None, jit32=False):
+    """Model vs code on the same scenes. Returns (disagreements, stats)."""
+    workers = workers or min(ctx.workers, 8)
+    real64 = run_real(scenes, True, workers)
+    sc32 = [cast32_scene(s) for s in scenes]
+    real32 = run_real(sc32, False, workers, jit=jit32)
+    lines64 = [scene_line(s, r["amps"]) for s, r in zip(scenes, real64) if r["error"] is None]
+    lines32 = [scene_line(s, r["amps"]) for s, r in zip(sc32, real32) if r["error"] is None]
+    rep64 = iter(ctx.driver.ask(lines64))
+    rep32 = iter(ctx.driver.ask(lines32))
+    dis = []
+    stats = dict(kinds={}, types={}, modes={}, sizes={}, psf_shapes={}, real_errors=0)
+    for s, r64, s32, r32 in zip(scenes, real64, sc32, real32):
+        for key, val in (("kinds", s["kind"]), ("modes", s["mode"]), ("sizes", str(s["N"])), ("psf_shapes", str(tuple(np.shape(s["psf"]))))):
+            stats[key][val] = stats[key].get(val, 0) + 1
+        for t in s["types"]:
+            stats["types"][t] = stats["types"].get(t, 0) + 1
+        diffs = []
+        for tag, sc, rr, rep, tol in (("x64", s, r64, rep64, tol64), ("f32", s32, r32, rep32, tol32)):
+            if rr["error"] is not None:
+                stats["real_errors"] += 1
+                diffs.append(f"{tag}: real code raised {rr['error']}")
+                continue
+            try:
+                m = parse_image(next(rep), sc["N"])
+            except ValueError as e:
+                diffs.append(f"{tag}: model rejected the scene: {e}")
+                continue
+            d = compare_images(rr["image"], m, tol, what=f"{tag} image")
+            if d:
+                diffs.append(d)
+        if diffs:
+            dis.append(dict(scene=ser_scene(s), diffs=diffs[:3]))
+    return dis, stats
+
+
+def standard_configs(rng, tier, kinds=("pixel", "fourier", "hybrid"), sizes=None):
+    """Renderer configurations (kind, N, psf, options) covering odd/even sizes and stamps."""
+    sizes = sizes or ([(16, 5), (15, 4), (12, 12), (21, 7)] if tier == "quick" else
+                      [(8, 3), (16, 5), (15, 4), (12, 12), (21, 7), (24, 9), (33, 8), (40, 15), (17, 1)])
+    cfgs = []
+    for i, (N, s) in enumerate(sizes):
+        for kind in kinds:
+            psf = asym_psf(rng, s) if s > 1 else np.ones((1, 1))
+            opts = {}
+            if kind == "pixel":
+                opts = dict(os=int(rng.integers(0, N // 2 + 1)), num_os=int(rng.choice([1, 2, 3, 5, 8, 12])))
+            elif kind == "hybrid":
+                nsig = int(rng.choice([15, 15, 10, 20]))
+                opts = dict(nsig=nsig, npr=int(rng.integers(0, nsig + 1)))
+            elif kind == "fourier":
+                opts = dict(nsig=int(rng.choice([15, 15, 12])))
+            cfgs.append((kind, N, psf, opts))
+    return cfgs
